@@ -33,6 +33,8 @@ def run(ctx):
     prog = mirq.Program(ctx.facts.mir())
     ctx.not_decided += ["exactness of the cascade for every store shape (only coverage of the dependency indices is decided)", "that every surviving reference resolves (the expect(\"handle must be valid\") sites are sound only under this property)"]
 
+    rank_rule(ctx, syn)
+
     # ---------------- CASC
     r_casc = ctx.rule("C02.CASC", "removing an item consults every reverse index that can name an annotation depending on it")
     st = syn.structs.get("AnnotationStore")
@@ -210,3 +212,68 @@ def run(ctx):
     if len(roots) < 6:
         ctx.anchor_missing(r_panic, "removal entry points (found %d)" % len(roots))
     total_rule(ctx, r_panic, prog, roots, load_safe("C02"), 40, 10)
+
+
+# ---------------------------------------------------------------------- RANK
+DROPPING = {"flatten", "filter", "filter_map", "flat_map", "skip", "skip_while", "step_by", "rev", "take_while", "dedup", "chain", "zip"}
+
+
+def rank_rule(ctx, syn):
+    """a handle is the index of a slot in its store.  An index counted by enumerate() *after* the iteration
+    dropped, skipped or reordered slots (flatten() over Option slots skips tombstones) is a rank, not a
+    handle: every handle built from such a counter names the wrong item as soon as the store has a gap"""
+    from synq import walk, find, unparse, strip, pat_names
+    r = ctx.rule("C02.RANK", "no handle is built from an enumerate() counter that was taken after the iteration dropped or reordered slots")
+    n_enum = 0
+    for f in syn.fns:
+        if f.body is None or f.file == "src/tests.rs":
+            continue
+        # every enumerate() call: the chain before it, and the names its counter is bound to
+        for c in find(f.body, "mcall"):
+            if c["method"] != "enumerate":
+                continue
+            n_enum += 1
+            before = []
+            cur = strip(c["recv"])
+            while cur.get("k") == "mcall":
+                before.append(cur["method"])
+                cur = strip(cur["recv"])
+            dropped = [m for m in before if m in DROPPING]
+            r.hit("%s|enumerate#%d" % (f.qual, n_enum), sample={"function": f.qual, "chain_before_enumerate": list(reversed(before))[:6]} if dropped else None)
+            if not dropped:
+                continue
+            # counters: first component of tuple patterns of closures downstream / of the for loop over it
+            counters = set()
+            for nd in walk(f.body):
+                if nd.get("k") == "for" and contains_node(nd["iter"], c):
+                    counters.update(first_of_tuple(nd["pat"]))
+                if nd.get("k") == "mcall" and contains_node(nd["recv"], c):
+                    for a in nd["args"]:
+                        a0 = strip(a)
+                        if a0.get("k") == "closure" and a0["inputs"]:
+                            counters.update(first_of_tuple(a0["inputs"][0]))
+            if not counters:
+                continue
+            for call in find(f.body, "call"):
+                fn = unparse(call["func"])
+                if re.search(r"(Handle|HandleType)::new$", fn) and call["args"]:
+                    used = [n_["path"][0] for n_ in walk(call["args"][0]) if n_.get("k") == "path" and len(n_["path"]) == 1]
+                    hit = [u for u in used if u in counters]
+                    if hit:
+                        ctx.report(r, "%s|%s(%s)" % (f.qual, fn, dropped[0]), "%s builds %s(%s) from an enumerate() counter taken after .%s(): with a tombstone (or any dropped slot) before it the counter is the rank among the remaining items, not the handle, so a different item is addressed" % (f.qual, fn, hit[0], dropped[0]), f.file, call.get("l"))
+    ctx.floor(r, n_enum, 30, "enumerate() sites")
+
+
+def contains_node(tree, node):
+    from synq import walk
+    return any(n is node for n in walk(tree))
+
+
+def first_of_tuple(pat):
+    from synq import pat_names
+    p = pat
+    while p.get("p") in ("ref", "typed"):
+        p = p["pat"]
+    if p.get("p") == "tuple" and p.get("elems"):
+        return pat_names(p["elems"][0])
+    return []
